@@ -119,6 +119,9 @@ def render(desc, eager):
                 out += new_def(100 + i)
             out.append("")
             parent = f"M{i}"
+            if c["mid"].get("deep"):  # two plain levels: the spec parent is not a direct base of anything lazy
+                out += [f"class N{i}(M{i}):", "    pass", ""]
+                parent = f"N{i}"
     if desc.get("sub"):
         k = len(desc["classes"])
         out.append(f"class PS(C{k - 1}):")
@@ -138,12 +141,14 @@ def build(desc, eager):
     classes = [ns[f"C{i}"] for i in range(len(desc["classes"]))]
     classes = ClassList(classes)
     classes.mids = {i: ns[f"M{i}"] for i in range(len(classes)) if f"M{i}" in ns}
+    classes.deep = {i: ns[f"N{i}"] for i in range(len(classes)) if f"N{i}" in ns}
     return classes, ns.get("PS"), src
 
 
 class ClassList(list):
     """the spec classes of a description; .mids = {i: plain class between C<i> and C<i+1>}"""
     mids = {}
+    deep = {}
 
 
 def make_cmap(classes, sub):
@@ -152,6 +157,8 @@ def make_cmap(classes, sub):
     if sub is not None:
         cmap[id(sub)] = len(classes)
     for i, m in getattr(classes, "mids", {}).items():
+        cmap[id(m)] = 100 + i
+    for i, m in getattr(classes, "deep", {}).items():
         cmap[id(m)] = 100 + i
     return cmap
 
